@@ -247,7 +247,14 @@ def evaluate(ctx, cases, broken, label, corr=True, fn="mismatches"):
         if sbad is None:
             broken.append(dict(kind="correspondence", detail=err))
             return obs, fails, [idx[i] for i in bad]
-        return obs, fails, [idx[i] for i in bad] + [sidx[i] for i in sbad]
+        # a device which accepts fewer bytes than it was given and returns NO error breaks the io.Writer contract: outside the
+        # fault model of the property. Whether such a run ends fatally (io.ErrShortWrite of a flush) or retries depends on
+        # the size of the buffer between the writer and the device - an internal constant a maintainer may change - so a
+        # divergence from the model (buffer of 4096) on these cases is recorded, not held against the tie; the direct oracle
+        # above still demands, for them too, that a successful exit delivered every byte.
+        outside = [sidx[i] for i in sbad if cases[sidx[i]].get("cut_at", 0) > 0]
+        ctx.cov["short_write_without_error_model_divergences"] = ctx.cov.get("short_write_without_error_model_divergences", 0) + len(outside)
+        return obs, fails, [idx[i] for i in bad] + [sidx[i] for i in sbad if sidx[i] not in set(outside)]
     return obs, fails, [idx[i] for i in bad]
 
 
